@@ -654,3 +654,10 @@ def _scaler_transform(run, s, X):
 def _unfitted(run):
     from . import libml
     return OpaqueV(libml.sc_new, 'scaler')
+
+
+@specfn('selrows')
+def _selrows(run, X, d, a):
+    """rows of X whose decision is arm a"""
+    la = _la()
+    return MatV(la.msel(X.term, T.eqmask(_seq(run, d, 'A').term, a.term)))
